@@ -16,10 +16,10 @@
 (* Unexplained lines are collected with a class: "C03-zoutside" (the known    *)
 (* finding: z outside the axial range, x and y inside) or "new".              *)
 EXTENDS MatrixCache, C03TraceCommon, TraceLib
-VARIABLES l, cfgLine, geoms, st, bad
+VARIABLES l, cfgLine, geoms, st, hist, bad
 
 NoObj == [none |-> TRUE]
-Impls == {"RayTracing", "Interpolation"}
+Impls == {"RayTracing", "Interpolation", "FromFile"}
 \* "ProjMatrixByBinUsingRayTracing sadly doesn't support shifted x/y origin yet" (more than 0.05 mm; 2^-12 mm units)
 MustRefuse(geo) == geo.impl = "RayTracing" /\ (Abs(geo.ox) > 205 \/ Abs(geo.oy) > 205)
 (* ---------------- rows: fixed point 2^-20, "up to floating-point rounding" --- *)
@@ -46,6 +46,7 @@ RowSound(geo, row) ==
     /\ e[4] >= 0                                                     \* non-negative
     /\ InsideXY(geo, e)                                              \* inside the image in x and y
     /\ i < Len(row) => LexLess(Vox(e), Vox(row[i + 1]))              \* no voxel twice
+NonNegNoTwice(row) == \A i \in 1..Len(row) : row[i][4] >= 0 /\ (i < Len(row) => LexLess(Vox(row[i]), Vox(row[i + 1])))
 \* known finding C03-zoutside: z outside the axial range (x and y inside)
 AllInsideZ(geo, row) == \A i \in 1..Len(row) : InsideZ(geo, row[i])
 
@@ -62,7 +63,7 @@ RaySpacing(geo, ds) == IF UadbEff(geo) THEN 2 * ds ELSE ds
 OnBoundary(u, unit) == LET f == Mod(u + unit \div 2, unit) IN f <= unit \div 1024 \/ f >= unit - unit \div 1024
 Tie(geo, rf) ==
   LET cc == CfgOf(geo)  b == BinOfList(rf.b)  nvw == NumViews(cc)  unit == 4096 * 2 * geo.ntl IN
-  /\ geo.impl = "RayTracing"            \* the interpolating matrix is continuous in s: no ties
+  /\ geo.impl # "Interpolation"         \* the interpolating matrix is continuous in s: no ties
   /\ PhiOffsetZero(cc, GridOf(geo))
   /\ \/ b.view = 0 /\ \E j \in 0..(geo.ntl - 1) : OnBoundary(RayPos2n(rf.sx, RaySpacing(geo, rf.dsx), geo.ntl, j), unit)
      \/ 2 * b.view = nvw /\ \E j \in 0..(geo.ntl - 1) : OnBoundary(RayPos2n(rf.sy, RaySpacing(geo, rf.dsy), geo.ntl, j), unit)
@@ -84,12 +85,31 @@ RowClass(geo, row, rest) ==
 \* detector centres while the symmetries relate nominal lines; for the bins where the two disagree
 \* (~S2det, decided per bin by the specification) the derived row need not be the direct row
 UadbExempt(geo, b) == UadbEff(geo) /\ ~S2det(st.c, st.g, st.esw, b)
+\* known finding C03-interp-history: ProjMatrixByBinUsingInterpolation::set_up switches its piecewise-linear
+\* interpolation off for good when the z voxel size is not half the axial sampling of segment 0; rows of a
+\* later geometry that would use it then differ from those of a fresh object.  hist.pwlOff records that
+\* such a set_up happened in the life of the object.
+PiecewiseGeometry(geo) == Npa(CfgOf(geo), GridOf(geo), 0) = 2
+InterpExempt(geo) == geo.impl = "Interpolation" /\ hist.pwlOff /\ PiecewiseGeometry(geo)
+\* known finding C03-interp-nonsquare: the interpolating matrix keeps voxels inside the image under mirror
+\* symmetries (it restricts x and y to ranges symmetric about 0) but not under the exchange of x and y:
+\* with different sizes in x and y the rows derived by a 90 degrees operation differ from the direct rows
+InterpSwapExempt(geo, b) == geo.impl = "Interpolation" /\ ~SquareRange(geo) /\ FindOp(st.c, st.g, st.esw, b).swap
 Outcome(r) ==
   CASE r.e = "Ref" ->
          IF r.gid \in 1..Len(geoms) /\ InRange(CfgOf(geoms[r.gid]), BinOfList(r.b))
          THEN LET cls == RowClass(geoms[r.gid], r.row, TRUE) IN Res(cls = "ok", cls, st)
          ELSE Res(FALSE, "new", st)
-    [] r.e = "New" -> Res(r.impl \in Impls, "new", NewMatrix(r.impl, SwOf(r.sw), r.cacheOn, r.basicOnly))
+    [] r.e = "New" ->
+         IF r.impl = "FromFile"
+         THEN \* written by the library's writer from a ray-tracing matrix set up for geometry src with requested
+              \* switches req; the header carries the effective switches; a new object parsed it
+              IF r.src \in 1..Len(geoms) /\ geoms[r.src].impl = "FromFile"
+              THEN LET geo == geoms[r.src]  cc == CfgOf(geo)  gg == GridOf(geo) IN
+                   Res(r.written /\ r.parsed /\ SwOf(r.sw) = EffectiveSwitches(cc, gg, SwOf(r.req)), "new",
+                       NewFromFile(GenOf(r.src), cc, gg, SwOf(r.sw), r.cacheOn, r.basicOnly))
+              ELSE Res(FALSE, "new", st)
+         ELSE Res(r.impl \in Impls, "new", NewMatrix(r.impl, SwOf(r.sw), r.cacheOn, r.basicOnly))
     [] r.e = "Parse" -> IF HasObj /\ st.impl = "Interpolation" THEN Res(~r.failed, "new", DoParse(st, SwOf(r.sw), r.cacheOn, r.basicOnly).st)
                         ELSE Res(FALSE, "new", st)
     [] r.e = "SetSw" -> IF HasObj THEN Res(TRUE, "ok", DoSetSwitches(st, SwOf(r.sw)).st) ELSE Res(FALSE, "new", st)
@@ -100,7 +120,12 @@ Outcome(r) ==
     [] r.e = "SetUp" ->
          IF HasObj /\ r.gid \in 1..Len(geoms) /\ geoms[r.gid].impl = st.impl
          THEN LET geo == geoms[r.gid] IN
-              IF MustRefuse(geo)
+              IF st.impl = "FromFile"
+              THEN LET o == DoSetUpFromFile(st, GenOf(r.gid))
+                       obs == { ObsHook(r.hooks[i]) : i \in 1..Len(r.hooks) }
+                   IN Res(r.err = o.refused /\ obs = o.inserts /\ Len(r.hooks) = Cardinality(o.inserts)
+                          /\ (~o.refused => (Len(r.eff) = 5 /\ SwOf(r.eff) = o.st.esw)), "new", o.st)
+              ELSE IF MustRefuse(geo)
               THEN LET o == DoSetUpRefused(st) IN Res(r.err /\ ObsHooks(r.hooks) = o.hooks, "new", o.st)
               ELSE LET o == DoSetUp(st, GenOf(r.gid), CfgOf(geo), GridOf(geo))
                    IN Res(~r.err /\ ObsHooks(r.hooks) = o.hooks /\ Len(r.eff) = 5 /\ SwOf(r.eff) = o.st.esw, "new", o.st)
@@ -112,33 +137,43 @@ Outcome(r) ==
                   geo == geoms[st.gen]
                   hooksOk == ObsHooks(r.hooks) = o.hooks
               IN IF o.ret = NoRow THEN Res(hooksOk /\ r.err, "new", o.st)
+                 ELSE IF IsEmptyRow(o.ret)
+                 THEN \* known finding C03-fromfile-cache: the row is not in the cache, so it is "computed" as empty
+                      Res(FALSE, IF hooksOk /\ ~r.err /\ r.row = << >> THEN "C03-fromfile-cache" ELSE "new", o.st)
                  ELSE LET rf == TraceLog[cfgLine + r.ref]
                           refOk == /\ r.ref >= 1 /\ cfgLine + r.ref <= Len(TraceLog) /\ rf.e = "Ref"
                                    /\ rf.gid \in 1..Len(geoms) /\ geoms[rf.gid] = geo /\ rf.b = r.b
                           rest == hooksOk /\ ~r.err /\ refOk
                           cls == IF rest /\ UadbExempt(geo, b) /\ ~RowEq(r.row, rf.row)
                                  THEN (IF RowSound(geo, r.row) THEN "C03-uadb" ELSE "new")
+                                 ELSE IF rest /\ InterpExempt(geo) /\ ~RowEq(r.row, rf.row)
+                                 THEN (IF RowSound(geo, r.row) THEN "C03-interp-history" ELSE "new")
+                                 ELSE IF rest /\ InterpSwapExempt(geo, b) /\ ~(RowEq(r.row, rf.row) /\ RowSound(geo, r.row))
+                                 THEN (IF NonNegNoTwice(r.row) THEN "C03-interp-nonsquare" ELSE "new")
                                  ELSE RowClass(geo, r.row, rest /\ (Tie(geo, rf) \/ RowEq(r.row, rf.row)))
                       IN Res(cls = "ok", cls, o.st)
          ELSE Res(FALSE, "new", st)
     [] OTHER -> Res(FALSE, "new", st)
 
-Init == l = 1 /\ cfgLine = 0 /\ geoms = << >> /\ st = NoObj /\ bad = << >>
+Init == l = 1 /\ cfgLine = 0 /\ geoms = << >> /\ st = NoObj /\ hist = [pwlOff |-> FALSE] /\ bad = << >>
 Note(cls) == IF cls = "new" THEN (IF Len(SelectSeq(bad, LAMBDA x : x[2] = "new")) < 300 THEN Append(bad, <<l, cls>>) ELSE bad)
              ELSE (IF Len(SelectSeq(bad, LAMBDA x : x[2] = cls)) < 20 THEN Append(bad, <<l, cls>>) ELSE bad)
 Next == /\ l <= Len(TraceLog)
         /\ LET r == TraceLog[l] IN
-           IF r.e = "Config" THEN cfgLine' = l /\ geoms' = << >> /\ st' = NoObj /\ bad' = bad
+           IF r.e = "Config" THEN cfgLine' = l /\ geoms' = << >> /\ st' = NoObj /\ bad' = bad /\ UNCHANGED hist
            ELSE IF r.e = "Geom" THEN
-             /\ UNCHANGED <<cfgLine, st>>
+             /\ UNCHANGED <<cfgLine, st, hist>>
              /\ geoms' = Append(geoms, GeoOf(r))
              /\ bad' = IF r.gid = Len(geoms) + 1 /\ GeometryOk(r) /\ r.geom = "Cylindrical" /\ r.ntl >= 1 /\ r.impl \in Impls THEN bad ELSE Note("new")
            ELSE LET o == Outcome(r) IN
              /\ UNCHANGED <<cfgLine, geoms>>
              /\ st' = o.st
+             /\ hist' = IF r.e = "New" THEN [pwlOff |-> FALSE]
+                        ELSE IF r.e = "SetUp" /\ HasObj /\ r.gid \in 1..Len(geoms) /\ ~r.err /\ ~PiecewiseGeometry(geoms[r.gid])
+                        THEN [pwlOff |-> TRUE] ELSE hist
              /\ bad' = IF o.ok THEN bad ELSE Note(o.cls)
         /\ l' = l + 1
-Spec == Init /\ [][Next]_<<l, cfgLine, geoms, st, bad>>
+Spec == Init /\ [][Next]_<<l, cfgLine, geoms, st, hist, bad>>
 
 Done == l > Len(TraceLog) => (bad = <<>> \/ PrintT(<<"UNEXPLAINED", bad>>))
 Consumed == IF TLCGet("stats").diameter - 1 = Len(TraceLog) THEN TRUE
